@@ -294,3 +294,105 @@ def _already_typed_guard(f, ln):
             if "type" in t:
                 return True
     return False
+
+
+# --- R-PRECOND ---------------------------------------------------------------------------------------------------
+def precond(repo):
+    """R-PRECOND (C16/C13): a helper of type_check.py that dispatches on `<param>.type.which_type` and ends in
+    `assert False` for every other kind has a precondition: (one of) its arguments has a kind from the handled set D.
+    User input reaches the assertion unless every call is dominated by a guard `X.type.which_type not in S: <leave>` with
+    S a subset of D and X one of the call's arguments (directly, or X is the loop variable of a `for X, _ in ((a, ..),
+    (b, ..))` over the arguments).  D and S are read from the source (S may be a local bound to tuple literals)."""
+    res = RuleResult("R-PRECOND")
+    m = repo.mod("compiler/front_end/type_check.py")
+    helpers = {}
+    for f in m.top_funcs():
+        last = f.node.body[-1] if f.node.body else None
+        # if/elif chain on which_type whose final else is `assert False`
+        chain = last
+        dom = set()
+        found = False
+        while isinstance(chain, ast.If):
+            t = ast.unparse(chain.test)
+            if "which_type" in t:
+                dom |= {c.value for c in ast.walk(chain.test) if isinstance(c, ast.Constant) and isinstance(c.value, str)}
+            if len(chain.orelse) == 1 and isinstance(chain.orelse[0], ast.If):
+                chain = chain.orelse[0]
+                continue
+            if chain.orelse and isinstance(chain.orelse[0], ast.Assert) and isinstance(chain.orelse[0].test, ast.Constant) \
+                    and chain.orelse[0].test.value is False:
+                found = True
+            break
+        if found and dom and f.name.startswith("_types_"):
+            helpers[f.name] = dom
+    if not helpers:
+        raise AnalysisError("type_check.py: no helper with a which_type dispatch ending in `assert False` found")
+    for f in m.top_funcs():
+        parents = {}
+        for n in ast.walk(f.node):
+            for c in ast.iter_child_nodes(n):
+                parents[id(c)] = n
+        tuples = {}
+        for n in walk_no_nested_funcs(f.node):
+            if isinstance(n, ast.Assign) and len(n.targets) == 1 and isinstance(n.targets[0], ast.Name) and isinstance(n.value, ast.Tuple):
+                vals = {c.value for c in n.value.elts if isinstance(c, ast.Constant)}
+                tuples.setdefault(n.targets[0].id, set()).update(vals)
+
+        def guard_of(st):
+            """(guarded expression texts, allowed kinds) if st is `if X.type.which_type not in S: ...leave`."""
+            if not (isinstance(st, ast.If) and isinstance(st.test, ast.Compare) and len(st.test.ops) == 1
+                    and isinstance(st.test.ops[0], ast.NotIn) and isinstance(st.test.left, ast.Attribute)
+                    and st.test.left.attr == "which_type"):
+                return None
+            if not (st.body and any(isinstance(x, (ast.Return, ast.Continue, ast.Raise)) for x in st.body)):
+                return None
+            comp = st.test.comparators[0]
+            if isinstance(comp, ast.Tuple):
+                allowed = {c.value for c in comp.elts if isinstance(c, ast.Constant)}
+            elif isinstance(comp, ast.Name) and comp.id in tuples:
+                allowed = tuples[comp.id]
+            else:
+                return None
+            base = st.test.left.value            # X.type
+            if isinstance(base, ast.Attribute) and base.attr == "type":
+                base = base.value
+            return ast.unparse(base), allowed
+
+        for call in walk_no_nested_funcs(f.node):
+            if not (isinstance(call, ast.Call) and isinstance(call.func, ast.Name) and call.func.id in helpers):
+                continue
+            dom = helpers[call.func.id]
+            res.instances += 1
+            args = {ast.unparse(a) for a in call.args}
+            ok = False
+            # climb: for each enclosing block, look at the statements before the one containing the call
+            node = call
+            while id(node) in parents and not ok:
+                par = parents[id(node)]
+                for fld in ("body", "orelse", "finalbody"):
+                    blk = getattr(par, fld, None)
+                    if isinstance(blk, list) and node in blk:
+                        for st in blk[:blk.index(node)]:
+                            g = guard_of(st)
+                            if g and g[0] in args and g[1] <= dom:
+                                ok = True
+                            # a loop over the arguments that leaves the function on a bad kind
+                            if isinstance(st, ast.For) and isinstance(st.iter, ast.Tuple) and isinstance(st.target, ast.Tuple) \
+                                    and st.target.elts and isinstance(st.target.elts[0], ast.Name):
+                                lv = st.target.elts[0].id
+                                firsts = {ast.unparse(e.elts[0]) for e in st.iter.elts if isinstance(e, ast.Tuple) and e.elts}
+                                for inner in st.body:
+                                    g = guard_of(inner)
+                                    if g and g[0] == lv and g[1] <= dom and (firsts & args) \
+                                            and any(isinstance(x, ast.Return) for x in inner.body):
+                                        ok = True
+                node = par
+            if not ok:
+                res.add(f"{m.rel}|{f.name}|{call.func.id}", f"{f.name} calls {call.func.id}({', '.join(sorted(args))}) without first "
+                        f"excluding kinds outside {sorted(dom)}: for two operands of the same other kind (struct, array, opaque) "
+                        f"{call.func.id} ends in `assert False` -- an AssertionError instead of the diagnostic", m.rel, call.lineno, f.name)
+    if res.instances < 3 and not res.findings:
+        raise AnalysisError(f"only {res.instances} calls of {sorted(helpers)} found")
+    res.samples = [f"{k}: handles {sorted(v)}" for k, v in helpers.items()]
+    res.analysed = [m.rel]
+    return res
